@@ -407,6 +407,10 @@ func (app *App) stateManager() appState {
 		}
 		return stateManager
 	}
+	if app.cluster.Get(master) == nil {
+		app.logger.Error().Msgf("master %s is not a registered cluster host", master)
+		return stateManager
+	}
 
 	// activeNodes are master + alive running replicas
 	activeNodes, err := app.GetActiveNodes()
